@@ -68,6 +68,22 @@ def make_case(seed, idx, tier):
         d2["objective_form"] = "plain"
         d2["big_snapshot"] = True
         d = d2
+    if idx % 16 == 6:
+        # more than 10 000 evaluations through one statistics wrapper before the late snapshots: the timings it has gathered (summary() prints
+        # their mean and deviation) are part of the tree's observable state however many there are
+        d2 = gen.gen_tree_case(gen.case_rng("C19", seed, idx, "long"), {"dim": (2, 3), "root": ["de", "sea", "shade"][(idx // 16) % 3], "leaf": ["sea", "de", "cma"][(idx // 16) % 3], "levels": [2], "gsc": "melimit",
+                                                                       "lscs": ["dontstop"], "stacks": False, "fams": ["rastrigin", "funnel"], "boxes": ["sym"], "hibernation": False,
+                                                                       "entry": "tree", "max_gens": 3, "sprout": "simple", "seeded_p": 1.0})
+        d2["levels"][0]["pop"] = 128
+        d2["levels"][0]["gens"] = 8
+        d2["levels"][0].pop("election_group_size", None)
+        d2["shared"] = True
+        for lv in d2["levels"]:
+            lv["stack"] = ["stats"]
+        d2["gsc"] = {"k": "melimit", "n": 12}
+        d2["objective_form"] = "closure"
+        d2["long_stats_history"] = True
+        d = d2
     if idx % 8 == 3:
         # dump purity on a tree that holds NaN fitness values (objective undefined in a region): comparing two such individuals draws
         # from Python's global generator in this library, so *any* look at "the best" while dumping would alter the global random state.
@@ -111,6 +127,20 @@ def _log_of(tree):
             if callable(v) and hasattr(v, "log"):
                 return v.log
     return f.log
+
+
+def _timings(tree):
+    """What every statistics wrapper of the tree has gathered: (level, position in the stack, number of timings, digest of the timings).  A live
+    run never repeats its timings, but a dump followed by a load has to hand back exactly the ones that were dumped (summary() reports them)."""
+    import hashlib
+
+    out = []
+    for li, stack in enumerate(_level_stacks(tree)):
+        for pi, w in enumerate(stack):
+            if type(w).__name__ == "StatsGatheringProblem":
+                ds = list(w.durations)
+                out.append((li, pi, len(ds), hashlib.sha256(repr([float(x).hex() for x in ds]).encode()).hexdigest()[:16], int(w.n_evaluations)))
+    return out
 
 
 def _gsc_verdict(tree):
@@ -170,6 +200,7 @@ def run_case(desc):
                 cfg = build_config(desc, ctx)
                 tree = DemeTree(cfg)
                 k = 0
+                timings_by_k = {}
                 while True:
                     # ---- snapshot point k
                     before = raw_digest(tree)
@@ -211,6 +242,9 @@ def run_case(desc):
                     live["gsc_verdict"] = _gsc_verdict(tree)
                     live["raw"] = before
                     snaps.append((k, path, rng_state, live))
+                    timings_by_k[k] = _timings(tree)
+                    if any(t[2] > 10000 for t in timings_by_k[k]):
+                        cov["snapshots_after_more_than_10000_evaluations_through_one_statistics_wrapper"] += 1
                     self_has = {type(d).__name__ for lvl in tree.levels for d in lvl if d.is_active}
                     if "CMADeme" in self_has:
                         cov["snapshot_with_active_cma"] += 1
@@ -258,6 +292,11 @@ def run_case(desc):
                 viol("pickle_load failed", k=k, error=repr(e)[:300])
                 continue
             cov["loads"] += 1
+            if k in timings_by_k:
+                cov["timings_of_statistics_wrappers_compared_after_load"] += len(timings_by_k[k])
+                lt = _timings(loaded)
+                if lt != timings_by_k[k]:
+                    viol("statistics wrapper of the loaded tree holds other timings than the one that was dumped", k=k, dumped=[t[:3] + t[4:] for t in timings_by_k[k]], loaded=[t[:3] + t[4:] for t in lt])
             ls = public_snapshot(loaded)
             ls["gsc_verdict"] = _gsc_verdict(loaded)
             ls["raw"] = raw_digest(loaded)
